@@ -202,7 +202,11 @@ def register(PROPS, COMPONENTS):
                    "unknown or completed key changes nothing; isRecognized / isCompleted / finishedWithValue follow the life-cycle "
                    "automaton (pending -> completed -> forgotten, with the re-request quirk as a fourth phase); linearizability as "
                    "an inductive invariant (the ghost history in lock order replays through the specification with the recorded "
-                   "results); mutual exclusion, idle threads hold nothing, the lock holder is always enabled, deadlock-freedom. "
+                   "results); mutual exclusion, idle threads hold nothing, the lock holder is always enabled, deadlock-freedom; "
+                   "without any fairness assumption (Proof/DObjLive.lean, lexicographic form of Base/Live.lean; environment events = "
+                   "call, tap observation, a consumer's observation of a ready future) C18_terminates: no infinite execution with "
+                   "finitely many environment events, and C18_progress / C18_stuck_all_returned / C18_stuck_after_dtor_all_ready: a "
+                   "state without enabled library step has every thread returned (and after the destructor every future ready). "
                    "The model is tied to the source on every run: the unmodified header, instantiated with a traced value type "
                    "(long and heap std::string payloads), runs against substituted std::mutex with a plain-access tap on the four "
                    "maps under a deterministic scheduler (consumers poll their futures with wait_for(0) + yield; a scheduling "
@@ -211,8 +215,10 @@ def register(PROPS, COMPONENTS):
         level_note="Trusted: Lean kernel (+propext, Classical.choice, Quot.sound), std::promise / std::future / std::map (real "
                    "library, not modelled: a promise is a three-state cell unset / value / broken_promise), the primitive semantics "
                    "of std::mutex, shim + tap + scheduler + driver glue, the traced value type of the client. Partial: 'never hangs' "
-                   "is proved in its safety form (after the destructor every future handed out is ready); fair termination of a "
-                   "blocked consumer is not mechanised.",
+                   "is proved as: after the destructor every future handed out is ready, every execution with finitely many calls "
+                   "terminates under every scheduler with all threads returned (C18_terminates, C18_stuck_all_returned); a consumer "
+                   "blocked inside future::get is not a thread state of the model (std::future is trusted), and starvation of one "
+                   "caller by infinitely many calls of others under an unfair mutex is not excluded.",
         trusted_base=["Model/DObj.lean is a hand-written model of DelayedObjects.hpp (sequential specification + one critical section "
                       "per call)",
                       "std::promise / std::future / std::map are the real library and are trusted: set_value on an unset promise makes "
@@ -223,8 +229,10 @@ def register(PROPS, COMPONENTS):
                       "Driver/DObj.lean maps string keys s<n> to Key.s n (canonical decimal, injective) and pld/pst on the four map "
                       "objects to the model's `acc` event"],
         partial=["'never hangs' is proved as a safety fact: after the destructor's critical section every future ever handed out is "
-                 "ready (C18_never_hangs_partial), and deadlock-freedom of the lock protocol (C18_deadlock_free, "
-                 "C18_holder_enabled); that a consumer blocked in future::get is eventually woken (fair termination) is not mechanised",
+                 "ready (C18_never_hangs_partial), deadlock-freedom of the lock protocol (C18_deadlock_free, C18_holder_enabled, "
+                 "C18_progress) and termination of every execution with finitely many calls under every scheduler (C18_terminates, "
+                 "C18_stuck_all_returned); NOT proved: the wake-up of a consumer blocked inside std::future::get (std::future is "
+                 "trusted, not modelled) and starvation-freedom of one caller when others call infinitely often (unfair mutex)",
                  "'requested once' is a hypothesis of C18_value / C18_exactly_once_destroyed, as in the property text: the code "
                  "abandons the pending promise when getFuture is called again for a pending key (the first future then reports "
                  "broken_promise); the model accepts this and C18_never_hangs_partial covers it (ready, not hanging)"],
